@@ -148,6 +148,11 @@ class ConcreteFormat:
             def get_constituent_arrays(self) -> tuple[np.ndarray, ...]:
                 arrays = tuple(ranked_memref_to_numpy(field) for field in self.get__fields_())
                 for arr in arrays:
+                    # For complex64 / complex128 / float16 `ranked_memref_to_numpy` returns `raw.view(dtype)`, and NumPy
+                    # bases every further view (`to_numpy`'s reshape/transpose, a slice) on `raw`, not on `arr`: the
+                    # keep-alive has to hang on the array at the bottom of the base chain.
+                    while isinstance(arr.base, np.ndarray):
+                        arr = arr.base
                     _hold_ref(arr, self)
                 return arrays
 
